@@ -9,3 +9,36 @@ Example bits_ex : num_of_bits 4607182418800017408 = Fin false two52 (-52).  (* 1
 Proof. vm_compute. reflexivity. Qed.
 Example cmp_ex : spec_string_lt [97; 55357] [97; 65281] = true.  (* lone/high surrogate < U+FF01 in code-unit order *)
 Proof. vm_compute. reflexivity. Qed.
+
+From V Require Import C03.Tree C03.Fold C03.MiniJS C03.NumProofs C03.TreeProofs.
+(* (-1) >>> 0 = 4294967295 ; 1 << 31 = -2147483648 ; 2^32+5 | 0 = 5 *)
+Example fold_ex :
+  [fold_num_num cvt_amd64 BUShr (Fin true 1 0) (Fin false 0 0);
+   fold_num_num cvt_amd64 BShl (Fin false 1 0) (Fin false 31 0);
+   fold_num_num cvt_amd64 BBitOr (Fin false (two32 + 5) 0) (Fin false 0 0)]
+  = [FNum (Fin false 4294967295 0); FNum (Fin true 2147483648 0); FNum (Fin false 5 0)].
+Proof. vm_compute. reflexivity. Qed.
+Example spec_int_op_ex : spec_int_op BUShr (Fin true 1 0) (Fin false 0 0) = Some 4294967295.
+Proof. vm_compute. reflexivity. Qed.
+
+(* to_boolean_sound is not vacuous: `f(), !0` evaluates (probe 1000 logged) and is reported truthy with side effects *)
+Definition ex_e : expr := EBin BComma (ECall (EId 1000 false false) [] 0 false) (EUn UNot (ENum (Fin false 0 0)) false).
+Example to_boolean_ex :
+  to_boolean ex_e = (true, false, true) /\
+  eval (fun r => 1000 <=? r) (fun _ => VUndef) (fun _ => None) (fun _ _ => Val VNull)
+       (fun _ _ _ => ([], Val VUndef)) (fun _ _ _ _ => ([], Val VUndef)) [] ex_e = Some ([1000], Val (VBool true)) /\
+  wf_flags ex_e.
+Proof.
+  split; [vm_compute; reflexivity|]. split; [vm_compute; reflexivity|].
+  cbn. repeat split; intros; discriminate.
+Qed.
+
+(* the models rewrite: a ? true : f()  ->  a || f() in a boolean context *)
+Example simplify_boolean_ex :
+  simplify_boolean (fun r => 1000 <=? r) (EIf (EId 1 false false) (EBool true) (ECall (EId 1000 false false) [] 0 false))
+  = EBin BLogOr (EId 1 false false) (ECall (EId 1000 false false) [] 0 false).
+Proof. vm_compute. reflexivity. Qed.
+Example mangle_if_ex :
+  mangle_if (fun r => 1000 <=? r) false false (EBin BLooseNe (EId 1 false false) ENull) (EId 1 false false) (EStr [98])
+  = Some (EBin BNullish (EId 1 false false) (EStr [98])).
+Proof. vm_compute. reflexivity. Qed.
